@@ -258,6 +258,37 @@ func c08Run(c *Ctx) {
 			}
 		}
 	}
+	// 5d. texts made of tens of thousands of small constructs of one kind (the grammar bounds neither the
+	// number of statements nor of literals, calls, blocks, functions in a text), valid and with an error near the end
+	{
+		n := c.N(20000, 120000)
+		rep := func(unit func(i int) string) string {
+			var b strings.Builder
+			for i := 0; i < n; i++ {
+				b.WriteString(unit(i))
+			}
+			return b.String()
+		}
+		many := []string{
+			"t = [" + rep(func(i int) string { return fmt.Sprintf("{id: %d, v: %d}, ", i, i%7) }) + "{id: 0}];",
+			rep(func(i int) string { return fmt.Sprintf("r = {v: %d};\n", i) }),
+			"t = [" + rep(func(i int) string { return fmt.Sprintf("[%d], ", i) }) + "[]];",
+			rep(func(i int) string { return fmt.Sprintf("x = (%d) + (x);\n", i%9) }),
+			rep(func(i int) string { return "f(1)(2);\n" }),
+			rep(func(i int) string { return "{ x = 1; }\n" }),
+			rep(func(i int) string { return K["fun"] + fmt.Sprintf(" g%d(a) { ", i) + K["return"] + " a; }\n" }),
+			rep(func(i int) string { return K["if"] + " (x) y = 1; " + K["else"] + " y = 2;\n" }),
+			rep(func(i int) string { return "a.b[1].c = -!~1 ** 2;\n" }),
+			rep(func(i int) string { return K["for"] + " (;;) " + K["break"] + ";\n" }),
+		}
+		for _, m := range many {
+			for _, tail := range []string{"", Print("1 +") + "\n", "@\n"} {
+				if c.Mine() {
+					judge(&Case{Gen: "many-constructs", Src: m + "\n" + tail, X: map[string]string{"units": fmt.Sprint(n)}})
+				}
+			}
+		}
+	}
 	// 5. nothing runs: printing prefix + one error on the last line (also through the binary)
 	errs := []string{"@", `"unterminated`, "/* open", Print("1") + " )", Print("1 +"), K["var"] + " ;", "1 = 2;", "}", Print("(1"), K["if"] + " x", K["fun"] + " (", "a b", Var(B["len"], "1"), "1" + strings.Repeat("0", 400) + ";"}
 	for _, e := range errs {
@@ -431,7 +462,7 @@ func init() {
 		Run:         c08Run,
 		Judge:       c08Judge,
 		MustCount: func(c *Ctx) []string {
-			return []string{"accepted", "rejected_syntax", "rejected_lexical", "rejected_assign_target", "gen:nothing-runs", "gen:deep-nest", "gen:param-limit", "gen:reserved-names", "gen:assignment-targets", "gen:literal-forms", "gen:code-point-classes", "gen:statement-positions", "gen:file-edges-cli", "gen:long-lines-cli", "cli_rejected_clean", "gen:prefix-extension"}
+			return []string{"accepted", "rejected_syntax", "rejected_lexical", "rejected_assign_target", "gen:nothing-runs", "gen:deep-nest", "gen:param-limit", "gen:reserved-names", "gen:assignment-targets", "gen:literal-forms", "gen:code-point-classes", "gen:statement-positions", "gen:file-edges-cli", "gen:long-lines-cli", "gen:many-constructs", "cli_rejected_clean", "gen:prefix-extension"}
 		},
 	})
 }
